@@ -412,19 +412,61 @@ type dumpInfo struct {
 	run     string            // "<goroutine id> <state> in <function>" of the Run goroutine when it is blocked inside a callee of Run, else ""
 	blocked map[string]string // goroutine id -> "<state> in <first pool function>" of blocked goroutines that are inside the pool package
 	text    string            // condensed stacks of the goroutines that are inside the pool package
+
+	lockWait map[string]string // the subset of blocked whose state is a wait for a sync.Mutex / sync.RWMutex
+	parked   bool              // a goroutine is blocked in harness code called from the pool package (a wrapper holding it on purpose)
+}
+
+// allStacks returns the stacks of all goroutines (one reusable 8 MB buffer behind a lock).
+func allStacks() string {
+	dumpMu.Lock()
+	defer dumpMu.Unlock()
+	if dumpBuf == nil {
+		dumpBuf = make([]byte, 8<<20)
+	}
+	return string(dumpBuf[:runtime.Stack(dumpBuf, true)])
+}
+
+var (
+	dumpMu  sync.Mutex
+	dumpBuf []byte
+	// goroutines that were inside the pool package when a case started, before it had made its pool: left
+	// behind by an earlier case of this process (that happens only after a violation: a case that ends well
+	// has seen all its callers return). They belong to other pools and are left out of every later dump.
+	buried = map[string]bool{}
+)
+
+// caseStart is called first thing by every real-time check.
+func caseStart() {
+	stacks := allStacks()
+	dumpMu.Lock()
+	defer dumpMu.Unlock()
+	for _, blk := range strings.Split(stacks, "\n\n") {
+		if !strings.Contains(blk, "tongo/liteapi/pool.") {
+			continue
+		}
+		if m := goroutineHeader.FindStringSubmatch(blk); m != nil {
+			buried[m[1]] = true
+		}
+	}
+}
+
+func isBuried(id string) bool {
+	dumpMu.Lock()
+	defer dumpMu.Unlock()
+	return buried[id]
 }
 
 func dumpPoolGoroutines() dumpInfo {
-	buf := make([]byte, 8<<20)
-	buf = buf[:runtime.Stack(buf, true)]
-	info := dumpInfo{blocked: map[string]string{}}
+	buf := allStacks()
+	info := dumpInfo{blocked: map[string]string{}, lockWait: map[string]string{}}
 	type group struct {
 		n      int
 		sample string
 	}
 	groups := map[string]*group{}
 	var order []string
-	for _, blk := range strings.Split(string(buf), "\n\n") {
+	for _, blk := range strings.Split(buf, "\n\n") {
 		if !strings.Contains(blk, "tongo/liteapi/pool.") {
 			continue
 		}
@@ -434,11 +476,18 @@ func dumpPoolGoroutines() dumpInfo {
 			continue
 		}
 		id, state := m[1], m[2]
+		if isBuried(id) {
+			continue
+		}
 		if k := strings.Index(state, ","); k > 0 {
 			state = state[:k]
 		}
 		var fn string
+		harnessAbove := false
 		for _, ln := range lines[1:] {
+			if strings.HasPrefix(ln, "verifharness/") {
+				harnessAbove = true
+			}
 			if strings.Contains(ln, "tongo/liteapi/pool.") && !strings.HasPrefix(ln, "\t") {
 				fn = ln
 				if k := strings.LastIndex(fn, "("); k > 0 && !strings.HasPrefix(fn[k:], "(*") {
@@ -451,6 +500,11 @@ func dumpPoolGoroutines() dumpInfo {
 		key := state + " in " + fn
 		if state != "running" && state != "runnable" {
 			info.blocked[id] = key
+			if harnessAbove {
+				info.parked = true
+			} else if strings.HasPrefix(state, "sync.Mutex.") || strings.HasPrefix(state, "sync.RWMutex.") {
+				info.lockWait[id] = key
+			}
 			if strings.Contains(blk, "pool.(*ConnPool).Run(") && !strings.HasSuffix(fn, "(*ConnPool).Run") {
 				info.run = id + " " + key
 			}
@@ -549,7 +603,8 @@ func sentinelDelivered(p *pool.ConnPool, conn pool.VerifConn, seqno uint32, limi
 // ---------------------------------------------------------------------------------------------
 // the schedule check
 
-var schedule = &core.Check{Name: "c13/schedule", Quick: 48, Thorough: 4800, Fn: func(c *core.Ctx) error {
+var schedule = &core.Check{Name: "c13/schedule", Quick: 48, Thorough: 4800, Hang: caseHang, Fn: func(c *core.Ctx) error {
+	caseStart()
 	sc := drawScenario(c)
 	var lines []string
 	for _, a := range sc.actors {
@@ -570,14 +625,19 @@ var schedule = &core.Check{Name: "c13/schedule", Quick: 48, Thorough: 4800, Fn: 
 	for i := 0; i < sc.nconn; i++ {
 		r.conns = append(r.conns, p.VerifNewConnection(i))
 	}
-	p.VerifSetBest(r.conns[sc.best0])
+	if err := setBest(p, r.conns[sc.best0], fmt.Sprintf("conn%d (fresh pool)", sc.best0)); err != nil {
+		return err
+	}
 	ctx, stopRun := context.WithCancel(context.Background())
 	defer stopRun()
 	go p.Run(ctx)
 	r.t0 = time.Now()
 	for i, h := range sc.initial {
 		if h > 0 {
-			r.publish(i, h)
+			if err := poolCall(fmt.Sprintf("the first SetMasterHead(%d) on conn%d of a fresh pool (Run active)", h, i), func() { r.publish(i, h) }); err != nil {
+				c.Class("pool blocked")
+				return err
+			}
 		}
 	}
 	r.t0 = time.Now()
@@ -868,7 +928,8 @@ func errText(err error) string {
 // burst stress: many waiters with sub-millisecond timeouts against long back-to-back bursts of heads
 
 // tape: gomaxprocs index, waiters index, burst index
-var stress = &core.Check{Name: "c13/stress-burst", Fn: func(c *core.Ctx) error {
+var stress = &core.Check{Name: "c13/stress-burst", Hang: caseHang, Fn: func(c *core.Ctx) error {
+	caseStart()
 	gmp := c.OneOf("gomaxprocs", 1, 2, 16)
 	nW := c.OneOf("waiters", 16, 64, 128)
 	nHeads := c.OneOf("burst", 1000, 3000)
@@ -885,12 +946,18 @@ var stress = &core.Check{Name: "c13/stress-burst", Fn: func(c *core.Ctx) error {
 	p.VerifSetUpdateInterval(time.Hour)
 	best := p.VerifNewConnection(0)
 	other := p.VerifNewConnection(1)
-	p.VerifSetBest(best)
+	if err := setBest(p, best, "conn0 (fresh pool)"); err != nil {
+		return err
+	}
 	ctx, stopRun := context.WithCancel(context.Background())
 	defer stopRun()
 	go p.Run(ctx)
-	best.SetMasterHead(pool.VerifHead(baseSeqno))
-	other.SetMasterHead(pool.VerifHead(baseSeqno))
+	if err := setHead(best, "conn0 (fresh pool, Run active)", baseSeqno); err != nil {
+		return err
+	}
+	if err := setHead(other, "conn1 (fresh pool, Run active)", baseSeqno); err != nil {
+		return err
+	}
 
 	var stop atomic.Bool
 	var calls, wrong atomic.Int64
